@@ -157,15 +157,38 @@ def guarded(fn):
     import functools
     import traceback
 
+    import signal
+
+    class CaseTimeout(BaseException):
+        pass
+
+    def on_alarm(signum, frame):
+        raise CaseTimeout()
+
+    limit = int(os.environ.get("FMON_CASE_TIMEOUT", "120"))
+
     @functools.wraps(fn)
     def wrapper(*a, **k):
+        use_alarm = hasattr(signal, "SIGALRM") and limit > 0
+        if use_alarm:
+            old = signal.signal(signal.SIGALRM, on_alarm)
+            signal.alarm(limit)
         try:
             return fn(*a, **k)
+        except CaseTimeout:
+            # a generous wall-clock watchdog per case: its firing is "inconclusive for this case", never a violation
+            MON.notes["case-watchdog-fired"] += 1
+            MON.guard = 0
+            return None
         except Exception as e:
             MON.violation("monitor-error", "".join(traceback.format_exception(e))[-1500:],
                           key="monitor-error:" + type(e).__name__)
             MON.guard = 0
             return None
+        finally:
+            if use_alarm:
+                signal.alarm(0)
+                signal.signal(signal.SIGALRM, old)
 
     return wrapper
 
